@@ -83,16 +83,38 @@ def run(ctx):
                         loop = a
                         break
                 full = False
+                shape = None
                 if loop is not None and loop.get("kind") == "CXXForRangeStmt":
                     # the range initialiser mentions the member `dependees`
                     rng = [y for y in A.kids(loop) if y.get("kind") == "DeclStmt"]
                     full = any(z.get("kind") == "MemberExpr" and z.get("name") == "dependees" for d_ in rng[:1] for z in A.walk(d_))
-                sides[x.get("opcode")].append((x, loop.get("kind") if loop is not None else None, full))
+                    # what is ranged over: the list itself, or something built from it (a set, a copy made unique, ...)
+                    for d_ in rng[:1]:
+                        for v_ in A.kids(d_):
+                            if v_.get("kind") == "VarDecl" and A.kids(v_):
+                                e_ = A.strip_casts(A.kids(v_)[-1])
+                                while e_.get("kind") in ("MaterializeTemporaryExpr", "CXXBindTemporaryExpr", "ExprWithCleanups", "CXXFunctionalCastExpr") and A.kids(e_):
+                                    e_ = A.strip_casts(A.kids(e_)[-1])
+                                if e_.get("kind") == "DeclRefExpr":
+                                    dv_ = u.by_id.get((e_.get("referencedDecl") or {}).get("id"))
+                                    if dv_ is not None and "&" in (A.qtype(dv_) or "") and A.kids(dv_):
+                                        e_ = A.strip_casts(A.kids(dv_)[-1])
+                                if e_.get("kind") == "MemberExpr":
+                                    shape = "the list `%s`" % e_.get("name")
+                                else:
+                                    shape = "%s of type %s" % (e_.get("kind"), re.sub(r'\s+', ' ', A.stype(e_) or "")[:60])
+                sides[x.get("opcode")].append((x, loop.get("kind") if loop is not None else None, full, shape))
     ctx.require(sides["++"] and sides["--"], "dispatch_printed_messages: in-degree increment / decrement not found")
     for op, lst in sides.items():
-        for x, lk, full in lst:
+        for x, lk, full, shape in lst:
             ctx.ob("R13.4", "in-degree %s" % op, full, site=A.where(x), detail={"enclosing_loop": lk, "range_for_over_dependees": full},
                    what="the in-degree is %s inside a %s that is not a range-for over the whole `dependees` list: increments and decrements no longer pair up entry by entry" % ("incremented" if op == "++" else "decremented", lk))
+    shapes_inc = sorted({sh for _, _, _, sh in sides["++"] if sh})
+    shapes_dec = sorted({sh for _, _, _, sh in sides["--"] if sh})
+    ctx.ob("R13.4", "increments and decrements range over the same collection", shapes_inc == shapes_dec and len(shapes_inc) == 1, site=A.where(sides["++"][0][0]),
+           detail={"incremented_over": shapes_inc, "decremented_over": shapes_dec},
+           key="R13.4:same collection",
+           what="the in-degree is incremented once per element of %s but decremented once per element of %s: a port that names the same prerequisite twice is counted differently on the two sides and is released early (or never)" % (shapes_inc, shapes_dec))
     fn = u.function("scan_deps")
     # the array of key literals that a range-for iterates over
     arrays = []
